@@ -679,7 +679,7 @@ def gen_comb_purl(rng, n):
         if t['ty'] not in SEVEN: t['ty'] = rng.choice(SEVEN)
         yield f'M {hx(spelling_of(rng, t))}'
 def gen_comb(rng, n):
-    parts = ['', 'a', 'B', 'a/b', 'a/b/c', '/', 'a/', '/a', ':', 'a:b', 'a:b:c', 'g:a/b', 'a/b:c', ':a', 'a:', 'é/ü:x', '@s/p', 'a//b', 'A_.b', 'Æ/ǅ', 'g::a', 'g:::', 'org.example::core', 'a/b/', '@angular/', 'x/', 'a/b/v2', 'mod/v2', 'a/v10', 'v2', 'a/V2', 'a/v', 'a/v2x', 'x/y/z/v3', 'angular/cli', 'a.b/c.d:e.f']
+    parts = [x for x in EXTRA['strs'] if len(x) < 40] + [x + 'n' for x in EXTRA['strs'] if len(x) < 40] + ['', 'a', 'B', 'a/b', 'a/b/c', '/', 'a/', '/a', ':', 'a:b', 'a:b:c', 'g:a/b', 'a/b:c', ':a', 'a:', 'é/ü:x', '@s/p', 'a//b', 'A_.b', 'Æ/ǅ', 'a/:b', 'a//b:c:d', '/a:b', 'org.example/:lib', 'node_modules/left-pad', '@acme/node_modules/cli', 'g::a', 'g:::', 'org.example::core', 'a/b/', '@angular/', 'x/', 'a/b/v2', 'mod/v2', 'a/v10', 'v2', 'a/V2', 'a/v', 'a/v2x', 'x/y/z/v3', 'angular/cli', 'a.b/c.d:e.f']
     for i in range(7):
         for s in parts: yield f'N {i} {hx(s)}'
     for _ in range(n):
@@ -794,7 +794,7 @@ def gen_pair(rng, n, kinds=('g', 't', 's', 'b', 'o')):
 
 # ------------------------------------------------------------------ G-shape
 HOOKS = ['o', 'eo', 'eb', 'be', 'ee', 'ebq', 'S', 'U', 'SU', 'sS', 'fn', 'nf', 'Sn', 'b', 'cb', 'bc', 'mb', 'x', 'qx', 'xq', 'k', 'f', 'n', 's', 'v', 'V', 'u', 'e', 'q', 'm', 'c', 'N', 't', 'nN', 'Nn', 'mc', 'cm', 'se', 'qf', 'fq', 'Vv', 'vV', 'nq', 'eq', 'sVuqc', 'tt', 'ne', 'mn', 'nm']
-FAM_INPUTS = ['PKG:Custom/n', 'Pkg:custom/n@1?k=v#s', 'pkg:custom/n?k=%20', 'pkg:custom/n?checksum=%20', 'pkg:café/n', 'pkg:py٣/n', 'pkg:\u212a8s/n', 'pkg:Custom/n', 'pkg:7custom/n', 'pkg:custom/n?checksum=', 'pkg:custom/n?x=', 'pkg:custom/n?checksum=SHA1:AB', 'pkg:custom/n', 'pkg:CuStOm/N@1?k=v#s', 'pkg:other/a/b/n', 'pkg:custom', 'pkg:cus%74om/n', 'pkg:cu stom/n', 'pkg:/custom/n', 'pkg:custom/',
+FAM_INPUTS = ['pkg:other/%80', 'pkg:other/n@1%ff', 'pkg:other/a%2Fb/n', 'pkg:custom/n?checksum=B:00,a:FF', 'PKG:Custom/n', 'Pkg:custom/n@1?k=v#s', 'pkg:custom/n?k=%20', 'pkg:custom/n?checksum=%20', 'pkg:café/n', 'pkg:py٣/n', 'pkg:\u212a8s/n', 'pkg:Custom/n', 'pkg:7custom/n', 'pkg:custom/n?checksum=', 'pkg:custom/n?x=', 'pkg:custom/n?checksum=SHA1:AB', 'pkg:custom/n', 'pkg:CuStOm/N@1?k=v#s', 'pkg:other/a/b/n', 'pkg:custom', 'pkg:cus%74om/n', 'pkg:cu stom/n', 'pkg:/custom/n', 'pkg:custom/',
               'pkg:custom/n?zz=&checksum=A:00', 'pkg:custom/n?checksum=bad', 'pkg:custom/n?=x', 'pkg:custom/%80', 'pkg:custom/n#%2e', 'x:custom/n', 'pkg:',
               'pkg:custom/n@%FF', 'pkg:custom/a%2Fb/n', 'pkg:Custom2/n', 'pkg:custom/n?Hk=old&ZZ=1']
 def gen_shape(rng, n):
@@ -841,5 +841,5 @@ def gen_serde(rng, n):
             base = 'pkg:npm/g/n?download_url=https://e.x/'
             if m > len(base):
                 for k in 'gt': yield f'J {k} {hx(json.dumps(base + "a" * (m - len(base))))}'
-    for s in ['pkg:pkg:type/name', 'pkg:pkg:npm/%40angular/cli@1.0.0', 'pkg:pkg:pkg:t/n@1?k=v#s', 'pkg:pkg://t/n', 'pkg:pkg/name', 'pkg:t/pkg:n', 'pkg:pypi/Django_REST.framework@3.14', 'pkg:nuget/Newtonsoft.Json@13.0.1', 'pkg:maven/commons-io@2.11', 'pkg:PyPI/Foo__Bar', 'pkg:nuget/\u0130', 'pkg:NuGet/A\u00c9']:
+    for s in ['pkg:type%2Fname', 'pkg%3Atype/name', 'pkg:type/a%2fb/name', 'pkg:type/name?key%3Dvalue', 'pkg:npm%2Flodash@4.17.21', 'pkg:pkg:type/name', 'pkg:pkg:npm/%40angular/cli@1.0.0', 'pkg:pkg:pkg:t/n@1?k=v#s', 'pkg:pkg://t/n', 'pkg:pkg/name', 'pkg:t/pkg:n', 'pkg:pypi/Django_REST.framework@3.14', 'pkg:nuget/Newtonsoft.Json@13.0.1', 'pkg:maven/commons-io@2.11', 'pkg:PyPI/Foo__Bar', 'pkg:nuget/\u0130', 'pkg:NuGet/A\u00c9']:
         for k in 'gt': yield f'J {k} {hx(json.dumps(s))}'
